@@ -395,7 +395,7 @@ func checkItemOffsets(w *core.World, r *core.Report, name string) {
 	if f == nil {
 		return
 	}
-	start := param(f, "startOffset")
+	start := paramOf(f, "int64", "startOffset")
 	n := 0
 	for _, in := range core.Instrs(f) {
 		st, ok := in.(*ssa.Store)
@@ -949,7 +949,7 @@ func ruleBarrierFlush(w *core.World, r *core.Report, c *senderCtx) {
 	for _, s := range core.Sites(c.main, false) {
 		if s.Callee == c.send && c.flushRole(s.Instr) == "flush-before-queue" {
 			found = true
-			txn := param(c.main, "transactionMode")
+			txn := c.txnModeParam()
 			hasTxn, hasFlush := false, false
 			for _, f := range core.FactsAt(s.Instr.Block()) {
 				if f.Val && txn != nil && core.Unwrap(f.Cond) == ssa.Value(txn) {
@@ -996,22 +996,129 @@ func c09(w *core.World, r *core.Report) {
 	}
 }
 
-func (c *senderCtx) inTxnPhi() *ssa.Phi {
-	for _, in := range c.head.Instrs {
-		if ph, ok := in.(*ssa.Phi); ok && ph.Comment == "inTransaction" {
-			return ph
+// txnModeParam: of the sender's two boolean parameters one selects the kind of
+// batcher (it is NewBatcher's argument); the other one is the transaction mode.
+func (c *senderCtx) txnModeParam() *ssa.Parameter {
+	pipeline := map[ssa.Value]bool{}
+	for _, g := range core.DeepFuncs(c.main) {
+		for _, s := range core.SitesNamed(g, false, "*Redis.NewBatcher") {
+			for _, a := range s.Args() {
+				v := core.Unwrap(a)
+				if fv, ok := v.(*ssa.FreeVar); ok {
+					if b := core.Binding(fv); b != nil {
+						v = core.Unwrap(b)
+					}
+				}
+				if u, ok := v.(*ssa.UnOp); ok && u.Op == token.MUL {
+					if cell := core.Cell(u.X); cell != nil {
+						for _, st := range core.CellStores(cell) {
+							pipeline[core.Unwrap(st.Val)] = true
+						}
+					}
+				}
+				pipeline[v] = true
+			}
 		}
+	}
+	var out []*ssa.Parameter
+	for _, p := range c.main.Params {
+		if b, ok := p.Type().Underlying().(*types.Basic); ok && b.Kind() == types.Bool && !pipeline[p] {
+			out = append(out, p)
+		}
+	}
+	if len(out) == 1 {
+		return out[0]
+	}
+	return param(c.main, "transactionMode")
+}
+
+// flagPhis: the loop-carried boolean flags of the main loop, by role.
+//   - the in-transaction flag is set to true exactly on the edge taken when the
+//     state machine reports "transaction begins";
+//   - the flush request is the flag whose value the state machine's second
+//     result flows into.
+func (c *senderCtx) inTxnPhi() *ssa.Phi {
+	var cands []*ssa.Phi
+	for _, in := range c.head.Instrs {
+		ph, ok := in.(*ssa.Phi)
+		if !ok {
+			continue
+		}
+		if b, isB := ph.Type().Underlying().(*types.Basic); !isB || b.Kind() != types.Bool {
+			continue
+		}
+		if c.phiSetTrueUnderBegin(ph, map[*ssa.Phi]bool{}) {
+			cands = append(cands, ph)
+		}
+	}
+	if len(cands) == 1 {
+		return cands[0]
 	}
 	return nil
 }
 
-func (c *senderCtx) headPhi(name string) *ssa.Phi {
-	for _, in := range c.head.Instrs {
-		if ph, ok := in.(*ssa.Phi); ok && ph.Comment == name {
-			return ph
+// phiSetTrueUnderBegin: some constant-true operand (through nested phis of
+// the loop body) enters on an edge whose source block is reached only under
+// txnStatus == begin.
+func (c *senderCtx) phiSetTrueUnderBegin(ph *ssa.Phi, seen map[*ssa.Phi]bool) bool {
+	if seen[ph] {
+		return false
+	}
+	seen[ph] = true
+	for i, e := range ph.Edges {
+		if b, ok := core.ConstBool(e); ok && b {
+			for _, fct := range core.FactsAt(ph.Block().Preds[i]) {
+				cmp, ok := core.AsCmp(fct.Cond, fct.Val)
+				if ok && cmp.Op == token.EQL && isTxnStatusVal(cmp.X) {
+					if k, isK := core.ConstInt(cmp.Y); isK && k == c.begin {
+						return true
+					}
+				}
+			}
+		}
+		if inner, ok := e.(*ssa.Phi); ok && inner != ph {
+			if c.phiSetTrueUnderBegin(inner, seen) {
+				return true
+			}
 		}
 	}
+	return false
+}
+
+func (c *senderCtx) needFlushPhi() *ssa.Phi {
+	var cands []*ssa.Phi
+	for _, in := range c.head.Instrs {
+		ph, ok := in.(*ssa.Phi)
+		if !ok {
+			continue
+		}
+		if b, isB := ph.Type().Underlying().(*types.Basic); !isB || b.Kind() != types.Bool {
+			continue
+		}
+		if phiFedBy(ph, isTxnFlushVal, map[*ssa.Phi]bool{}) {
+			cands = append(cands, ph)
+		}
+	}
+	if len(cands) == 1 {
+		return cands[0]
+	}
 	return nil
+}
+
+func phiFedBy(ph *ssa.Phi, is func(ssa.Value) bool, seen map[*ssa.Phi]bool) bool {
+	if seen[ph] {
+		return false
+	}
+	seen[ph] = true
+	for _, e := range ph.Edges {
+		if is(e) {
+			return true
+		}
+		if inner, ok := e.(*ssa.Phi); ok && phiFedBy(inner, is, seen) {
+			return true
+		}
+	}
+	return false
 }
 
 func ruleNoFlushInTxn(w *core.World, r *core.Report, c *senderCtx) {
@@ -1020,7 +1127,7 @@ func ruleNoFlushInTxn(w *core.World, r *core.Report, c *senderCtx) {
 		r.Unresolved("sendCmdsBatch/inTransaction", "loop-carried in-transaction flag not found")
 		return
 	}
-	txn := param(c.main, "transactionMode")
+	txn := c.txnModeParam()
 	if txn == nil {
 		r.Unresolved("sendCmdsBatch/transactionMode", "transaction-mode parameter not found")
 		return
@@ -1029,7 +1136,7 @@ func ruleNoFlushInTxn(w *core.World, r *core.Report, c *senderCtx) {
 	// pending when an iteration starts. Established inductively: it holds at
 	// loop entry (constant false) and every path of one iteration that starts
 	// with it re-establishes it.
-	nf := c.headPhi("needFlush")
+	nf := c.needFlushPhi()
 	invariant := false
 	if nf != nil {
 		invariant = true
@@ -1114,12 +1221,44 @@ func ruleNoFlushInTxn(w *core.World, r *core.Report, c *senderCtx) {
 	}
 }
 
+// phiFamily: the SSA versions of one source variable: every phi connected to
+// root through phi operands, in either direction.
+func phiFamily(fn *ssa.Function, root *ssa.Phi) map[*ssa.Phi]bool {
+	fam := map[*ssa.Phi]bool{root: true}
+	for changed := true; changed; {
+		changed = false
+		for _, in := range core.Instrs(fn) {
+			ph, ok := in.(*ssa.Phi)
+			if !ok || ph.Type() != root.Type() {
+				continue
+			}
+			for _, e := range ph.Edges {
+				if q, ok := e.(*ssa.Phi); ok {
+					if fam[q] && !fam[ph] {
+						fam[ph], changed = true, true
+					}
+					if fam[ph] && !fam[q] {
+						fam[q], changed = true, true
+					}
+				}
+			}
+		}
+	}
+	return fam
+}
+
 func ruleClearAfterFlush(w *core.World, r *core.Report, c *senderCtx) {
 	n := 0
+	root := c.inTxnPhi()
+	if root == nil {
+		r.Unresolved("sendCmdsBatch/inTransaction", "loop-carried in-transaction flag not found")
+		return
+	}
+	fam := phiFamily(c.main, root)
 	for _, b := range c.main.Blocks {
 		for _, in := range b.Instrs {
 			ph, ok := in.(*ssa.Phi)
-			if !ok || ph.Comment != "inTransaction" {
+			if !ok || !fam[ph] {
 				continue
 			}
 			for i, e := range ph.Edges {
@@ -1284,7 +1423,7 @@ func ruleTxnStateMachine(w *core.World, r *core.Report) {
 
 // ruleTxnFlushWrapped is R02.7.
 func ruleTxnFlushWrapped(w *core.World, r *core.Report, c *senderCtx) {
-	txn := param(c.main, "transactionMode")
+	txn := c.txnModeParam()
 	if txn == nil {
 		r.Unresolved("sendCmdsBatch/transactionMode", "transaction-mode parameter not found")
 		return
